@@ -146,6 +146,13 @@ theorem J_call (sy : Bool) (cap : Nat) (f : Plan) (s : St) (c : Call) (hj : J sy
     | some w =>
       simp only
       split <;> simpa [J, releaseLock] using hm
+  | waitMerges =>
+    simp only [call]
+    cases hs : s.writer with
+    | none => simpa [J, hs] using hm
+    | some w =>
+      simp only
+      split <;> simpa [J, releaseLock] using hm
   | merge =>
     simp only [call]
     cases hs : s.writer with
